@@ -677,11 +677,20 @@ KERNEL_GROUPS['KernelsCounts'] = [
     ('oligo_generation_info.py', 'OligoGenerationInfo.update', 'k_info_update', 'counts'),
     ('oligo_generation_info.py', 'OligoGenerationInfo.eval_in_range', 'k_info_eval_in_range', 'counts'),
 ]
+KERNEL_GROUPS['KernelsMetaRow'] = [
+    # MetaRow: the span a row is reported on when it shares a codon with a PAM edit (optional fields narrowed by `is None`)
+    ('meta_row.py', 'MetaRow.alt_ref_range', 'k_mr_alt_ref_range', 'mrow'),
+    ('meta_row.py', 'MetaRow.overlaps_codon', 'k_mr_overlaps_codon', 'mrow'),
+    ('meta_row.py', 'MetaRow.pam_ref_start', 'k_mr_pam_ref_start', 'mrow'),
+    ('meta_row.py', 'MetaRow.pam_ref_end', 'k_mr_pam_ref_end', 'mrow'),
+    ('meta_row.py', 'MetaRow.pam_ref_range', 'k_mr_pam_ref_range', 'mrow'),
+]
 KERNEL_EXTRA_SOURCES = {'KernelsMave': ['enums.py'], 'KernelsNames': ['enums.py', 'constants.py'], 'KernelsLift': ['enums.py'], 'KernelsGpo': ['enums.py']}
 KERNEL_CONSTS = {'KernelsNames': ('REVCOMP_OLIGO_NAME_SUFFIX',)}
 KERNEL_IMPORTS = {'KernelsTargeton': ' Model.Targeton', 'KernelsMave': ' Model.Seq Model.Vcf Model.Mave Model.PyStr',
                   'KernelsNames': ' Model.Seq Model.Vcf Model.Mave Model.PyStr', 'KernelsLift': ' Model.Seq Model.Vcf Model.Gpo',
-                  'KernelsGpo': ' Model.Seq Model.Vcf Model.Gpo Model.PyStr Model.PyLoop', 'KernelsExons': ' Model.PyLoop', 'KernelsCounts': ' Model.Unique Model.PyLoop'}
+                  'KernelsGpo': ' Model.Seq Model.Vcf Model.Gpo Model.PyStr Model.PyLoop', 'KernelsExons': ' Model.PyLoop', 'KernelsCounts': ' Model.Unique Model.PyLoop',
+                  'KernelsMetaRow': ' Model.Seq Model.Vcf Model.Mave Model.Gpo Model.ToCsv'}
 
 
 def _kernel_extractor(name):
